@@ -355,6 +355,16 @@ def conv_oracle(ctx, g):
         other = rng.choice([h for h in groups if h is not grp])
         jobs.append({'op': 'in_units', 'a': {'q': '2 ' + u}, 'u': rng.choice(other)})
         meta.append(('incompat', x, u, w))
+    # the same dimension reached through different floating-point arithmetic on fractional exponents
+    frac = [('m^0.1 m^0.2', 'm^0.3', 1.0), ('m^0.7/m^0.4', 'm^0.3', 1.0), ('(s^0.1)^3', 's^0.3', 1.0), ('Pa^0.1 Pa^0.2', 'Pa^0.3', 1.0),
+            ('5 m^0.7/m^0.4', 'm^0.3', 5.0), ('K^0.6 K^0.1', 'K^0.7', 1.0), ('(kg^0.3)^0.5', 'kg^0.15', 1.0), ('2 J^0.2 J^0.1', 'J^0.3', 2.0),
+            ('m^0.3', 'm^0.1 m^0.2', 1.0), ('mol^1.1/mol^0.8', 'mol^0.3', 1.0)]
+    fr = vlib.run_impl_sharded('units', [{'op': 'in_units', 'a': {'q': a}, 'u': u} for a, u, _ in frac])
+    for (a, u, want), r in zip(frac, fr):
+        ctx.count('conv:frac|%s|%s' % (a, u))
+        if 'exc' in r or r.get('v') is None or abs(r['v'] - want) > 1e-12 * want:
+            ctx.violate('conv:frac|%s|%s' % (a, u), 'converting between two spellings of one fractional-exponent dimension does not give the ratio of magnitudes',
+                        {'op': 'in_units', 'a': {'q': a}, 'u': u}, want, r)
     res = vlib.run_impl_sharded('units', jobs)
     pend = None
     for (kind, x, u, w), j, r in zip(meta, jobs, res):
